@@ -273,15 +273,6 @@ def parseBmm (lenCheck : Bool) (aT bT out : List Ix) (shA shB : List Nat) : Opti
              pure := false }
     else none
 
-/-- lines 183-184: `lhs, out = eq.split("->"); a_term, b_term = lhs.split(",")` -/
-def splitEq2 (eq : List Nat) : Option (List Ix × List Ix × List Ix) :=
-  match splitArrow eq with
-  | [lhs, out] =>
-    match splitComma lhs with
-    | [a, b] => some (a, b, out)
-    | _ => none
-  | _ => none
-
 /-! ### `_parse_tensordot_axes_to_matmul` -/
 
 /-- `gen_nice_inds()` as code points: a-z, A-Z, then from 192 -/
